@@ -4,7 +4,7 @@
    Exp/ExportDoc.v (the supported schema in canonical order, and the tolerated differences). *)
 From Coq Require Import List NArith ZArith Bool.
 From RPFT Require Import Base.Sexp Base.PyStr Base.Result Base.Json Gen.Tables
-  Exp.Load Exp.Render Exp.ExportDoc Exp.ExportFacts Exp.CaseFacts Exp.GroupFacts.
+  Exp.Load Exp.Render Exp.ExportDoc Exp.ExportFacts Exp.CaseFacts Exp.GroupFacts Exp.ExitFacts.
 Import ListNotations.
 
 (* ---- per-class round trips: render (load (emit x)) = norm (emit x) *)
@@ -152,6 +152,38 @@ Example C05_groups_doc_nonvacuous :
 Proof. exact groups_doc_nonvacuous. Qed.
 Print Assumptions C05_groups_doc_nonvacuous.
 
+(* ---- exits shared by categories (repair "an exit shared by several categories of a router is
+   rendered once"; probe router_lists_shared_exit_once) *)
+Theorem C05_shared_exit_witness :
+  if router_lists_shared_exit_once then roundtrip w_shared_exit = Ok (norm w_shared_exit)
+  else roundtrip w_shared_exit <> Ok (norm w_shared_exit).
+Proof. exact shared_exit_witness. Qed.
+Print Assumptions C05_shared_exit_witness.
+
+(* the repaired get_exits never lists an exit twice, whatever the categories reference ... *)
+Theorem C05_uniq_exits_once : forall l, exits_once (uniq_exits l).
+Proof. exact uniq_exits_once. Qed.
+Print Assumptions C05_uniq_exits_once.
+
+Theorem C05_node_exits_once_repaired :
+  router_lists_shared_exit_once = true -> forall n, n_router n <> None -> exits_once (exits_of n).
+Proof. exact node_exits_once_repaired. Qed.
+Print Assumptions C05_node_exits_once_repaired.
+
+(* ... and changes nothing for a router whose categories have an exit each (on either tree) *)
+Theorem C05_distinct_exits_unchanged : forall n r,
+  n_router n = Some r -> exits_once (map c_exit (categories_of r)) -> exits_of n = map c_exit (categories_of r).
+Proof. exact distinct_exits_unchanged. Qed.
+Print Assumptions C05_distinct_exits_unchanged.
+
+Example C05_exits_once_nonvacuous :
+  n_router ex_shared_node <> None
+  /\ ~ exits_once (map c_exit (categories_of (match n_router ex_shared_node with Some r => r | None => RRandom JNull [] end)))
+  /\ uniq_exits [ex_exit 49; ex_exit 50; ex_exit 49] = [ex_exit 49; ex_exit 50]
+  /\ exits_once [ex_exit 49; ex_exit 50] /\ uniq_exits [ex_exit 49; ex_exit 50] = [ex_exit 49; ex_exit 50].
+Proof. exact exits_once_nonvacuous. Qed.
+Print Assumptions C05_exits_once_nonvacuous.
+
 (* ---- refutations: the full statement is false of the faithful model (open findings) *)
 Theorem C05_category_order_refuted : roundtrip w_category_order <> Ok (norm w_category_order).
 Proof. exact category_order_refuted. Qed.
@@ -161,9 +193,6 @@ Theorem C05_exit_order_refuted : roundtrip w_exit_order <> Ok (norm w_exit_order
 Proof. exact exit_order_refuted. Qed.
 Print Assumptions C05_exit_order_refuted.
 
-Theorem C05_shared_exit_refuted : roundtrip w_shared_exit <> Ok (norm w_shared_exit).
-Proof. exact shared_exit_refuted. Qed.
-Print Assumptions C05_shared_exit_refuted.
 
 (* the control: the same router in canonical order comes back unchanged *)
 Theorem C05_canonical_control : roundtrip w_canonical = Ok (norm w_canonical) /\ norm w_canonical = w_canonical.
